@@ -1045,6 +1045,10 @@ class Interp:
                 return a
             if is_boollike(a) != is_boollike(b):
                 return None
+            if is_intlike(a) != is_intlike(b):
+                # an int and a float: `1 if c else 2.5` has a different TYPE on the two arms (isinstance, //, str differ);
+                # one merged real term would make it a float on both - not merged, the caller splits the path
+                return None
             za, zb, _ = coerce_pair(a, b) if not is_boollike(a) else (z3val(a), z3val(b), True)
             za, zb = z3val(za), z3val(zb)
             if za.sort() != zb.sort():
